@@ -119,8 +119,10 @@ public:
 
   shared_ptr &operator=(shared_ptr &&other) noexcept
   {
-    wrapper().~shared_ptr_wrapper();
-    other.wrapper().MoveTo(buffer_);
+    // Take over `other` before the current value is released: `other` may be *this or
+    // may be owned by the object that *this manages (e.g. `node = std::move(node->next)`).
+    shared_ptr tmp{std::move(other)};
+    swap(tmp);
     return *this;
   }
 
@@ -132,8 +134,10 @@ public:
 
   shared_ptr &operator=(const shared_ptr &other) noexcept
   {
-    wrapper().~shared_ptr_wrapper();
-    other.wrapper().CopyTo(buffer_);
+    // Copy `other` before the current value is released: `other` may be *this or
+    // may be owned by the object that *this manages (e.g. `node = node->next`).
+    shared_ptr tmp{other};
+    swap(tmp);
     return *this;
   }
 
